@@ -202,7 +202,8 @@ Definition arr_guard (p : vpos) (t : arrty) : bool :=
 Definition leaf_ok (cfg : rcfg) (p : vpos) (e : event) : bool :=
   match e with
   | ENull | EBool _ | ETrue | EFalse | EPosInt _ | ENegInt _ | EInt _ | EBigInt _
-  | EFloat _ | EBigFloat _ | EDecimal _ | EBigDecimal _ | ENan _ | EUid _ | ETime _ => true
+  | EFloat _ | EBigFloat _ | EDecimal _ | EBigDecimal _ | ENan _ | EUid _ => true
+  | ETime s => time_token_valid s   (* a valid time value *)
   | EArray t n d => array_api_ok t && validate_full_array_any cfg t n d && arr_guard p t
   | EStringArray t d => array_api_ok t && validate_full_array_stringlike cfg t d && arr_guard p t
   (* media and custom arrays delivered in one event: a valid media type / custom type code *)
@@ -232,6 +233,7 @@ Definition key_ok (cfg : rcfg) (e : event) : bool :=
       match e with
       | EStringArray t d => validate_full_array_stringlike cfg t d
       | EArray t n d => validate_full_array_any cfg t n d
+      | ETime s => time_token_valid s
       | _ => true
       end
   | None => false
